@@ -504,6 +504,71 @@ def same_class_twice_and_two_stacks(run):
             run.violation("build:two-stacks:exception", "building two default stacks (%s) raised %r" % (how, e), {"how": how})
 
 
+def added_layer_and_overriding_member(run):
+    """(a) A layer added with addPostConstructLayer is the stack's new top: data sent from the stack's top and events broadcast at stack
+    level pass through it.  (b) A member of a parallel group that handles events by overriding onEvent (not by @EventCallback) is offered
+    every event that reaches the group and can consume it."""
+    from yowsup.layers import YowLayer, YowLayerEvent, YowParallelLayer
+    from yowsup.stacks import YowStack
+    log = []
+
+    class L(YowLayer):
+        def send(self, data):
+            log.append((self.__class__.__name__, "send"))
+            self.toLower(data)
+
+        def receive(self, data):
+            log.append((self.__class__.__name__, "receive"))
+            self.toUpper(data)
+
+        def onEvent(self, ev):
+            log.append((self.__class__.__name__, "event"))
+            return False
+    A, B, Added = type("A", (L,), {}), type("B", (L,), {}), type("Added", (L,), {})
+    run.case(("post-construct-layer",))
+    try:
+        st = YowStack((A, B), reversed=False)
+        st.addPostConstructLayer(Added())
+        del log[:]
+        st.send(b"x")
+        down = list(log)
+        del log[:]
+        st.broadcastEvent(YowLayerEvent("verif.added.event"))
+        bro = list(log)
+        del log[:]
+        st.receive(b"y")
+        up = list(log)
+        want_down = [("Added", "send"), ("B", "send"), ("A", "send")]
+        if down != want_down or [x for x in bro if x[1] == "event"] != [("Added", "event"), ("B", "event"), ("A", "event")] or up != [("A", "receive"), ("B", "receive"), ("Added", "receive")]:
+            run.violation("build:post-construct-layer", "stack (A, B) + addPostConstructLayer(Added): send from the top passed %s, a stack-level broadcast %s, received data %s" % (down, bro, up), {})
+    except Exception as e:
+        run.violation("build:post-construct-layer:exception", "raised %r" % (e,), {})
+    # (b)
+    seen = []
+
+    class Over(YowLayer):
+        def onEvent(self, ev):
+            seen.append(("Over", ev.getName()))
+            return ev.getName().endswith(".consume")
+
+    class Plain(YowLayer):
+        def onEvent(self, ev):
+            seen.append((self.__class__.__name__, ev.getName()))
+            return False
+    Below, Above = type("Below", (Plain,), {}), type("Above", (Plain,), {})
+    for name in ("verif.group.pass", "verif.group.consume"):
+        run.case(("overriding-member", name))
+        try:
+            del seen[:]
+            st = YowStack((Below, YowParallelLayer((Over,)), Above), reversed=False)
+            st.getLayer(0).emitEvent(YowLayerEvent(name))
+            want = [("Over", name)] + ([("Above", name)] if name.endswith("pass") else [])
+            if seen != want:
+                run.violation("propagation:overriding-member", "event %s emitted below a group whose member overrides onEvent: seen by %s, expected %s" % (name, seen, want), {"event": name})
+        except Exception as e:
+            run.violation("propagation:overriding-member:exception", "raised %r" % (e,), {})
+
+
 def subclass_event_handlers(run):
     """Event handlers are per class: a layer class and a subclass that adds / overrides handlers may both be instantiated in one
     process, in either order, and each instance sees exactly the events its own class handles."""
@@ -604,6 +669,7 @@ def run():
     subclass_event_handlers(r)
     deferred_in_order(r)
     same_class_twice_and_two_stacks(r)
+    added_layer_and_overriding_member(r)
     return r.finish()
 
 
